@@ -218,6 +218,23 @@ func (h *histGen) version() [][]string {
 		for _, i := range perm {
 			set(h.g.pool[i])
 		}
+	case mode == 5 && len(h.present) > 1: // shrink to one key and rewrite it: a one-leaf root written in this version
+		ks := h.presentKeys()
+		keep := r.Intn(len(ks))
+		for i, k := range ks {
+			if i != keep {
+				rm(k)
+			}
+		}
+		set(ks[keep])
+	case (mode == 6 || mode == 7) && len(h.present) == 0: // regrow from empty with exactly one key
+		set(h.g.pool[r.Intn(len(h.g.pool))])
+	case (mode == 6 || mode == 7 || mode == 8) && len(h.present) == 1: // update the only key / add exactly one
+		if mode == 8 {
+			set(h.g.pool[r.Intn(len(h.g.pool))])
+		} else {
+			set(h.presentKeys()[0])
+		}
 	case mode == 4 && len(h.present) > 1: // remove all but one
 		ks := h.presentKeys()
 		keep := r.Intn(len(ks))
